@@ -123,6 +123,24 @@ def value_universe(chk):
         vals.append(frozenset(hs))
         vals.append({(h if i % 2 else (i, h)): seq[i] for i, h in enumerate(hs)})
     vals.append([float('inf')] * 51 + [float('nan'), float('-inf'), -0.0])
+    # SIBLING containers of one kind with different contents (the skeletons above nest, they hardly ever put two
+    # containers of a kind side by side): what is worked out for one sibling must not be taken for the next
+    mk = {'list': list, 'tuple': tuple, 'set': set, 'frozenset': frozenset,
+          'dict': lambda xs: {x: i for i, x in enumerate(xs)}}
+    for kind, make in mk.items():
+        for rep in range(2 if q else 12):
+            pick = lambda k: [rng.choice(hashable) for _ in range(k)]  # noqa
+            a, b, c = make(pick(1)), make(pick(2)), make(pick(1) + [rep])
+            vals.append([a, b])
+            vals.append((a, b, c))
+            vals.append({'x': a, 'y': b, 'z': c})
+            vals.append([a, [b], (c,)])
+            vals.append({1: a, 2: [b, c]})
+            if kind in ('tuple', 'frozenset'):
+                vals.append({a, b, c})
+                vals.append(frozenset([a, b]))
+                vals.append({a: 1, b: 2, c: a})
+                vals.append(make([a, b, c]))
     # the documented counter-example region: nesting so deep that no width is left
     for leaf in ('', b'', 'a', 'word ' * 5):
         v = leaf
